@@ -125,7 +125,8 @@ def _all_lists(s: S) -> bool:
 
 @rule("C01", "R2.self-check-complete", "OBLIGATION",
       "the self-check asserts, over a collection built from all four region lists: both corners inside the die on both "
-      "axes, no overlap for every unordered pair, and |sum of areas - die area| below a tolerance", floor=3)
+      "axes, no overlap for every unordered pair, and |sum of areas - die area| below a tolerance that is finer than the "
+      "slack of the pairwise overlap test (not the area tolerance)", floor=3)
 def r2(ctx: Ctx) -> None:
     chk = _self_check_role(ctx)
     if chk is None:
@@ -412,7 +413,8 @@ def r3(ctx: Ctx) -> None:
 
 @rule("C01", "R4.descriptor-positions", "TUPLE",
       "(x, y, w, h, tag) positions agree between the die reader, the netlist rectangle reader, vector_spec and the "
-      "netlist rectangle writer; regions are reported unchanged (the constructor stores the very objects it parsed)", floor=5)
+      "netlist rectangle writer; regions are reported unchanged (the constructor stores the very objects it parsed) and "
+      "every fixed rectangle of the netlist becomes a fixed region (none filtered out)", floor=5)
 def r4(ctx: Ctx) -> None:
     r = ("p", 0)
 
